@@ -28,7 +28,7 @@ func init() {
 		Rule:             "roles {schema, user type (8 usages: alias, property, item, key shortcut, allOf parent at the root and deep inside a long root text, type rule, or rule), enum rule, regex type, document (2 modes, 4 schemas)} x every public method on fresh objects and in sequence on one object, over inputs: (i) ALL strings <= 4 (thorough 5) over a 26-symbol schema alphabet; (ii) every truncation and every single-byte deletion / insertion / substitution by 12 (thorough 26) symbols at every offset of the corpus (all testdata schema/type/enum/json files <= 400 (thorough 4096) bytes + generator outputs); (v) grammar-directed product: 7 examples x 21 rule names x 46 hostile rule values x 6 annotation positions (+ 7 second rules in both orders), 140 type bodies over self/other/missing references, enum and regex bodies x 18 comment/literal tails, runs of 1..12 malformed UTF-8 units inside strings in every role; (iii) numerals with huge exponents in isolated, memory-capped processes; (iv) EVERY errors.Format / ErrorCode construction site found by go/parser in the current tree and EVERY row of the template table, executed. Oracle: no panic, no process death, termination, every error exposes ErrCode()+Message() (directly or via errors.As), Position() < max(1,len(source it names)), Error()/Line()/SourceSubString() do not panic. Non-trivial = distinct (role, input).",
 		Run:              run,
 		Replay:           replay,
-		QuickBudget:      85 * time.Second,
+		QuickBudget:      150 * time.Second,
 		ThoroughBudget:   14 * time.Minute,
 		CrashIsViolation: true,
 		Finish:           finish,
@@ -179,6 +179,17 @@ func roleMethods(role, text string) (src sources, main string, ms []methodT) {
 			}
 			return s.Check()
 		})
+		add("sequence reversed", func() error {
+			s := mk()
+			s.Check()
+			s.Validate(json.New("doc0", fixedDocs[0]))
+			s.Example()
+			s.GetAST()
+			s.UsedUserTypes()
+			s.Check()
+			_, err := s.Len()
+			return err
+		})
 		add("sequence", func() error {
 			s := mk()
 			s.Len()
@@ -240,6 +251,16 @@ func roleMethods(role, text string) (src sources, main string, ms []methodT) {
 		add("Check", func() error { return mk().Check() })
 		add("Values", func() error { _, err := mk().Values(); return err })
 		add("GetAST", func() error { _, err := mk().GetAST(); return err })
+		add("sequence", func() error {
+			e := mk()
+			_, _ = e.Len()
+			_, _ = e.Values()
+			_ = e.Check()
+			_, _ = e.GetAST()
+			_, _ = e.Values()
+			_, err := e.Len()
+			return err
+		})
 		add("AddRule+Check", func() error {
 			s := jschema.New("schema", "1 // {enum: @e}")
 			if err := s.AddRule("@e", mk()); err != nil {
@@ -257,6 +278,16 @@ func roleMethods(role, text string) (src sources, main string, ms []methodT) {
 		add("Example", func() error { _, err := mk().Example(); return err })
 		add("Check", func() error { return mk().Check() })
 		add("GetAST", func() error { _, err := mk().GetAST(); return err })
+		add("sequence", func() error {
+			r := mk()
+			_, _ = r.Len()
+			_, _ = r.Example()
+			_ = r.Check()
+			_, _ = r.GetAST()
+			_, _ = r.Pattern()
+			_, err := r.Example()
+			return err
+		})
 		add("AddType+Check", func() error {
 			s := jschema.New("schema", "@r")
 			if err := s.AddType("@r", mk()); err != nil {
@@ -289,6 +320,42 @@ func roleMethods(role, text string) (src sources, main string, ms []methodT) {
 					}
 				}
 				return fmt.Errorf("lexeme stream does not terminate")
+			})
+			// ONE document object used several times: the stream read up to its first error (or its
+			// end), then the other calls on the same object; every call must return, not panic
+			drain := func(d jlib.Document) {
+				for i := 0; i < 10*len(text)+10; i++ {
+					if _, err := d.NextLexeme(); err != nil {
+						return
+					}
+				}
+			}
+			add("NextLexeme*;Check"+sfx, func() error { d := mk(); drain(d); return d.Check() })
+			add("NextLexeme*;Len"+sfx, func() error { d := mk(); drain(d); _, err := d.Len(); return err })
+			add("NextLexeme*;NextLexeme;Check;Check"+sfx, func() error {
+				d := mk()
+				drain(d)
+				_, _ = d.NextLexeme()
+				_ = d.Check()
+				return d.Check()
+			})
+			add("Len;NextLexeme*;Check;NextLexeme"+sfx, func() error {
+				d := mk()
+				_, _ = d.Len()
+				drain(d)
+				_ = d.Check()
+				_, err := d.NextLexeme()
+				if err == io.EOF {
+					return nil
+				}
+				return err
+			})
+			add("Validate;Check;Len"+sfx, func() error {
+				d := mk()
+				_ = jschema.New("schema", `1 // {type: "any"}`).Validate(d)
+				_ = d.Check()
+				_, err := d.Len()
+				return err
 			})
 		}
 		for _, st := range []string{`1 // {min: 0}`, "{ // {additionalProperties: \"any\"}\n  \"a\": 1 // {optional: true}\n}", `"s" // {type: "any"}`, "[\n  1\n]"} {
